@@ -20,3 +20,65 @@ func (config *CacheConfig) getChunkConfig() (c immunityChunkConfig)
   ensures  within-total: c.maxNumItems <= config.MaxNumItems && c.maxNumBytes <= config.MaxNumBytes && c.numItemsToPreemptivelyEvict <= config.NumItemsToPreemptivelyEvict
   assigns nothing
 @*/
+
+/*@
+// ---- chunk: eviction skips immune items; byte accounting moves by exactly the item size ----
+
+spec fn itemOf(e *list.Element) *cacheItem = payload(e.Value, ptr_cacheItem)
+spec fn holdsItem(e *list.Element) bool = typeIs(e.Value, ptr_cacheItem) && itemOf(e) != nil
+
+func (item *cacheItem) isImmuneToEviction() (r bool)
+  ensures r == flagSet(item.isImmune)
+  assigns nothing
+
+func (item *cacheItem) immunizeAgainstEviction()
+  ensures flagSet(item.isImmune)
+  assigns item.isImmune
+
+func (chunk *immunityChunk) trackNumBytesOnAddNoLock(item *cacheItem)
+  requires item != nil
+  requires byte-counter-fits-int: chunk.numBytes + item.size <= 9223372036854775807 && chunk.numBytes + item.size >= -9223372036854775808
+  ensures  added-exactly: chunk.numBytes == old(chunk.numBytes) + item.size
+  assigns  chunk.numBytes
+
+func (chunk *immunityChunk) trackNumBytesOnRemoveNoLock(item *cacheItem)
+  requires item != nil
+  requires byte-counter-fits-int: chunk.numBytes - item.size <= 9223372036854775807 && chunk.numBytes - item.size >= -9223372036854775808
+  ensures  removed-exactly: chunk.numBytes == max(old(chunk.numBytes) - item.size, 0)
+  assigns  chunk.numBytes
+
+func (chunk *immunityChunk) removeNoLock(element *list.Element)
+  requires chunk.itemsAsList != nil && chunk.items != nil && element != nil && holdsItem(element)
+  requires byte-counter-fits-int: chunk.numBytes - itemOf(element).size <= 9223372036854775807 && chunk.numBytes - itemOf(element).size >= -9223372036854775808
+  ensures  detached: old(inList(chunk.itemsAsList, element)) ==> owner(element) == nil
+  ensures  others-stay-linked: forall e *list.Element :: e != element ==> owner(e) == old(owner(e))
+  ensures  bytes-once: chunk.numBytes == max(old(chunk.numBytes) - itemOf(element).size, 0)
+  ensures  not-in-index: !has(chunk.items, itemOf(element).key)
+  ensures  list-stays-well-formed: old(wfList(chunk.itemsAsList)) ==> wfList(chunk.itemsAsList)
+  assigns  chunk.numBytes, mapof(chunk.items), listof(chunk.itemsAsList)
+
+func (chunk *immunityChunk) removeOldestNoLock(numToRemove int) (r int)
+  requires chunk.itemsAsList != nil && chunk.items != nil && wfList(chunk.itemsAsList)
+  requires elements-hold-items: forall e *list.Element :: inList(chunk.itemsAsList, e) ==> holdsItem(e)
+  requires byte-counter-small: 0 <= chunk.numBytes && chunk.numBytes <= 4611686018427387904 && (forall e *list.Element :: inList(chunk.itemsAsList, e) ==> 0 <= itemOf(e).size && itemOf(e).size <= 4611686018427387904)
+  ensures  immune-items-stay: forall e *list.Element :: old(inList(chunk.itemsAsList, e)) && flagSet(itemOf(e).isImmune) ==> inList(chunk.itemsAsList, e)
+  ensures  count-bounded: 0 <= r && r <= max(numToRemove, 0)
+  assigns  chunk.numBytes, mapof(chunk.items), listof(chunk.itemsAsList)
+
+loop 1
+  invariant 0 <= numRemoved && numRemoved <= max(numToRemove, 0)
+  invariant element != nil ==> inList(chunk.itemsAsList, element)
+  invariant wfList(chunk.itemsAsList)
+  invariant forall e *list.Element :: inList(chunk.itemsAsList, e) ==> old(inList(chunk.itemsAsList, e)) && holdsItem(e) && 0 <= itemOf(e).size && itemOf(e).size <= 4611686018427387904
+  invariant forall e *list.Element :: old(inList(chunk.itemsAsList, e)) && flagSet(itemOf(e).isImmune) ==> inList(chunk.itemsAsList, e)
+  invariant 0 <= chunk.numBytes && chunk.numBytes <= 4611686018427387904
+
+func (chunk *immunityChunk) RemoveItem(key string) (r bool)
+  requires chunk.itemsAsList != nil && chunk.items != nil && chunk.immuneKeys != nil
+  requires index-points-at-items: forall k string :: has(chunk.items, k) ==> chunk.items[k].listElement != nil && holdsItem(chunk.items[k].listElement)
+  requires byte-counter-small: 0 <= chunk.numBytes && chunk.numBytes <= 4611686018427387904 && (forall k string :: has(chunk.items, k) ==> 0 <= itemOf(chunk.items[k].listElement).size && itemOf(chunk.items[k].listElement).size <= 4611686018427387904)
+  ensures  found-iff: r == old(has(chunk.items, key))
+  ensures  bytes-once: r ==> chunk.numBytes == max(old(chunk.numBytes) - old(itemOf(chunk.items[key].listElement).size), 0)
+  ensures  bytes-kept: !r ==> chunk.numBytes == old(chunk.numBytes)
+@*/
+
